@@ -234,6 +234,23 @@ def build():
     c.append(E("instrument", "MidiInstrument", "Violin"))
     c.append(E("instrument", "Piano", then=["note_in_range", "C"]))
     c.append(E("instrument", "Guitar", then=["can_play_notes", ["E", "A", "D"]]))
+    # methods that are handed lists / dicts by the caller
+    c.append(E("instrument", "Instrument", then=["set_range", ["C-2", "C-5"]]))
+    c.append(E("instrument", "Piano", then=["set_range", ["A-0", "C-8"]]))
+    c.append(E("instrument", "Piano", then=["can_play_notes", ["C", "E", "G"]]))
+    c.append(E("containers", "Note", "C", 4, {"velocity": 30}, kw={"velocity": 5}))
+    c.append(E("containers", "Note", "C", 4, {"velocity": 30}, kw={"channel": 5}))
+    c.append(E("containers", "Note", then=["set_note", "E", 5, {"velocity": 9}]))
+    c.append(E("containers", "NoteContainer", then=["add_notes", ["C", "E", ["G", 5]]]))
+    c.append(E("containers", "NoteContainer", then=["add_notes", [["C", 5], ["E", 5, {"velocity": 20}]]]))
+    c.append(E("containers", "NoteContainer", ["C", "E", "G"], then=["remove_notes", ["C", "E"]]))
+    c.append(E("containers", "NoteContainer", ["C", "E", "G"], then=["__add__", ["B", "D"]]))
+    c.append(E("containers", "NoteContainer", ["C", "E", "G"], then=["__sub__", ["E"]]))
+    c.append(E("containers", "Bar", then=["place_notes", ["C", "E"], 4]))
+    c.append(E("containers", "Bar", then=["__add__", ["C", "E"]]))
+    c.append(E("containers", "Bar", "C", [3, 4], then=["set_meter", [6, 8]]))
+    c.append(E("containers", "Track", then=["add_notes", ["C", "E"], 4]))
+    c.append(E("containers", "Track", then=["from_chords", [["C", "Am"], None, ["G7", ["Dm", "F"]]], 2]))
     c.append(E("midi_track", "MidiTrack"))
     c.append(E("midi_track", "MidiTrack", 90))
     c.append(E("midi_track", "MidiTrack", then=["get_midi_data"]))
